@@ -3,7 +3,7 @@ from pyvc.rt import *  # noqa: F401,F403
 
 PROPERTY = "C17"
 USES_NX = True
-INCLUDE = ["C19", "C15"]
+INCLUDE = ["C19", "C15", "C16"]
 UT = "synkit/CRN/Props/utils.py"
 CV = "synkit/CRN/Hypergraph/conversion.py"
 HG = "synkit/CRN/Hypergraph/hypergraph.py"
@@ -149,6 +149,7 @@ FUNCTIONS = {
         "modifies": [],
         "raises": {"ValueError": "not exists(crn.nodes, lambda n: is_species(crn, n)) or not exists(crn.nodes, lambda n: is_reaction(crn, n))"},
         "ensures": ["shape_ok(result[2], len(result[0]), len(result[1])) and shape_ok(result[3], len(result[0]), len(result[1]))"],
+        "ghost_exports": ["species_index", "reaction_index"],     # callers may refer to them as build_S_minus_plus__species_index / __reaction_index
         "ghost_ensures": [
             # row of a species node, column of a reaction node: consumed / produced coefficient of that species in that reaction (arcs in either direction)
             "forall((species_index, reaction_index), lambda s, r: result[2][(species_index[s], reaction_index[r])] == cf(crn, s, r, 'reactant') + cf(crn, r, s, 'reactant'))",
@@ -175,5 +176,37 @@ FUNCTIONS = {
                     "       (cf(G, s, r, 'product') if (s, r) in done else 0.0) + (cf(G, r, s, 'product') if (r, s) in done else 0.0))",
                 ]},
         },
+    },
+    # the stoichiometric matrix S = S+ - S- (one numpy subtraction on top of build_S_minus_plus, which is used through its contract; its two index maps are
+    # ghost exports): entry (row of a species node, column of a reaction node) = produced minus consumed
+    ST + "::build_S": {
+        "params": {"crn": "obj:DiGraph"},
+        "vars": {"S_minus": "dict[tuple[int,int],real]", "S_plus": "dict[tuple[int,int],real]", "S": "dict[tuple[int,int],real]"},
+        "returns": "tuple[list[str],list[str],dict[tuple[int,int],real]]",
+        "requires": ["forall(crn.nodes, lambda n: not (is_species(crn, n) and rx_like(crn, n)))",
+                     "forall(crn.edges, lambda u, v: isinstance(crn[u][v].get('stoich', 1.0), (int, float)) and not isinstance(crn[u][v].get('stoich', 1.0), bool))"],
+        "modifies": [],
+        "raises": {"ValueError": "not exists(crn.nodes, lambda n: is_species(crn, n)) or not exists(crn.nodes, lambda n: is_reaction(crn, n))"},
+        "ensures": ["shape_ok(result[2], len(result[0]), len(result[1]))"],
+        "ghost_ensures": [
+            "forall('any', lambda n: (n in build_S_minus_plus__species_index) == (crn.has_node(n) and is_species(crn, n)))",
+            "forall('any', lambda n: (n in build_S_minus_plus__reaction_index) == (crn.has_node(n) and is_reaction(crn, n)))",
+            "forall((build_S_minus_plus__species_index, build_S_minus_plus__reaction_index), lambda s, r: "
+            "       result[2][(build_S_minus_plus__species_index[s], build_S_minus_plus__reaction_index[r])] == "
+            "       (cf(crn, s, r, 'product') + cf(crn, r, s, 'product')) - (cf(crn, s, r, 'reactant') + cf(crn, r, s, 'reactant')))",
+        ],
+    },
+    # the two matrices agree: for the bipartite view G that the exporter builds from a network H (C16's postcondition `is_view`), the S-entry of a
+    # species / reaction pair as characterised above equals the network's own incidence entry, produced minus consumed
+    "lemma::S_agrees_with_incidence": {
+        "params": {"G": "obj:DiGraph", "H": "obj:CRNHyperGraph", "with_eid": "bool"},
+        "requires": ["wf(H)", "is_view(G, H, with_eid)",
+                     "forall(G.edges, lambda u, v: isinstance(G[u][v].get('stoich', 1.0), (int, float)) and not isinstance(G[u][v].get('stoich', 1.0), bool))",
+                     "forall(('str', 'str'), lambda a, b: implies(f'S:{a}' == f'S:{b}', a == b))", "forall(('str', 'str'), lambda a, b: implies(f'R:{a}' == f'R:{b}', a == b))",
+                     "forall(('str', 'str'), lambda a, b: f'S:{a}' != f'R:{b}')"],
+        "ensures": [
+            "forall((H.species, H.edges), lambda s, e: (cf(G, sp(s), rx(e), 'product') + cf(G, rx(e), sp(s), 'product')) "
+            "       - (cf(G, sp(s), rx(e), 'reactant') + cf(G, rx(e), sp(s), 'reactant')) == P(H, e, s) - R(H, e, s))",
+        ],
     },
 }
